@@ -546,7 +546,16 @@ pub fn reused_inflate_state(fmt: DataFormat, p: &Prelude, st: &mut Stats) -> Box
 pub fn run_inflate_snap(m: &[u8], fmt: DataFormat, ops: &[Vec<i64>], finish_tail: bool, first_finish: bool, tail_cap: usize, st: &mut Stats, cp: &str, snap: Option<u32>, prelude: Option<&Prelude>) -> Result<DecRun, Violation> {
     let mut state = match prelude {
         Some(p) => reused_inflate_state(fmt, p, st),
-        None => InflateState::new_boxed(fmt),
+        // the three public ways to obtain a fresh state (a function of the script only)
+        None => match (m.len() + ops.len()) % 3 {
+            0 => InflateState::new_boxed(fmt),
+            1 => Box::new(InflateState::new(fmt)),
+            _ => match fmt {
+                DataFormat::Zlib => InflateState::new_boxed_with_window_bits(15),
+                DataFormat::Raw => InflateState::new_boxed_with_window_bits(-15),
+                _ => InflateState::new_boxed(fmt),
+            },
+        },
     };
     let n = m.len();
     let mut delivered = 0usize;
